@@ -3,6 +3,7 @@ pub mod case;
 pub mod gen;
 pub mod refint;
 pub mod runner;
+pub mod shadow;
 
 pub use case::{Bytes, CaseData, Pat};
 pub use refint::Z;
